@@ -16,7 +16,7 @@ Beacon *g_beacon = nullptr;
 extern "C" { extern const char *sim_variant_name; extern const char *sim_trng_flavor_name; }
 
 extern "C" __attribute__((used, visibility("default"))) const char *__asan_default_options() {
-    return "exitcode=77:detect_leaks=0:abort_on_error=0:handle_segv=0:handle_sigbus=0:handle_abort=0:handle_sigfpe=0:handle_sigill=0:allocator_may_return_null=1:detect_stack_use_after_return=0";
+    return "exitcode=77:halt_on_error=0:detect_leaks=0:abort_on_error=0:handle_segv=0:handle_sigbus=0:handle_abort=0:handle_sigfpe=0:handle_sigill=0:allocator_may_return_null=1:detect_stack_use_after_return=0";
 }
 extern "C" __attribute__((used, visibility("default"))) const char *__ubsan_default_options() {
     return "exitcode=77:halt_on_error=1:print_stacktrace=1";
@@ -694,8 +694,27 @@ int cmd_show(const Args &a) { // print the plan of one run index (debugging aid)
 
 } // namespace
 
+#ifdef SIM_ASAN
+extern "C" void __asan_set_error_report_callback(void (*cb)(const char *));
+static void asan_report_cb(const char *text) {
+    // runs inside the failing access; only record, the executor decides after the op returns
+    g_asan_reports++;
+    bool wr = strstr(text, "WRITE of size") != nullptr;
+    if (wr) g_asan_writes++;
+    if ((wr && g_asan_writes == 1) || g_asan_reports == 1) {
+        const char *e = strstr(text, "ERROR: AddressSanitizer");
+        if (!e) e = text;
+        size_t n = 0; while (e[n] && e[n] != '\n' && n < sizeof(g_asan_first) - 1) n++;
+        memcpy(g_asan_first, e, n); g_asan_first[n] = 0;
+    }
+}
+#endif
+
 int main(int argc, char **argv) {
     Args a;
+#ifdef SIM_ASAN
+    __asan_set_error_report_callback(asan_report_cb);
+#endif
     if (argc < 2) { fprintf(stderr, "usage: sim run|replay|show ...\n"); return 2; }
     a.mode = argv[1];
     g_variant = sim_variant_name;
